@@ -4,7 +4,7 @@ A polynomial is a dict {monomial: coeff}; a monomial is a sorted tuple of
 (var_index, exponent) pairs; () is the constant monomial. Trig reduction
 S^2 -> 1 - C^2 is applied by `Ring.mul` for variables registered as (S,C) pairs.
 """
-from fractions import Fraction
+from fractions import Fraction  # re-exported as P.Fraction
 import math
 from math import gcd
 
